@@ -1,6 +1,6 @@
 (** C13 — Log rotation: each output is self-contained after reconsumeMetadata. *)
 From Coq Require Import List ZArith NArith Bool.
-From BL Require Import Base.Bytes Reader.Entry Queue.QueueModel Session.SessionModel Session.SessionInv Session.SessionProps Gen.SrcFacts.
+From BL Require Import Base.Bytes Reader.Entry Queue.QueueModel Session.SessionModel Session.SessionInv Session.SessionProps Reader.ReaderLemmas Recovery.SessionCover Session.SessionCoverOut Gen.SrcFacts.
 Import ListNotations.
 
 (** [track] follows what the CURRENT output has received: a rotation starts a new output with the two writes of
@@ -28,3 +28,17 @@ Proof. intros cs. split; [reflexivity|discriminate]. Qed.
 
 Example C13_srcfacts : SrcFacts.sess_reconsume_shape = true /\ SrcFacts.sess_consume_order = true /\ SrcFacts.sess_locks_reconsumeMetadata = true.
 Proof. repeat split; reflexivity. Qed.
+
+(** with the ids: once a consume has written its metadata part, the CURRENT output (whatever was or was not consumed before the rotation)
+    holds a source for every id below [next_sid], and every event the consume then writes to it carries such an id *)
+Theorem C13_current_output_self_contained : forall s plans t, SInv s -> CInv s -> track_ok t s -> Forall (plan_cov (next_sid s)) plans ->
+  let '(s', ws, r) := consume true s plans in
+  exists data srcs, ws = (if consume_cs s then [cs_buf s] else []) ++ [drop_pos s] ++ data /\
+    ot_src t ++ drop_pos s = stream_of (map (fun p => src_payload (fst p) (snd p)) srcs) /\
+    map fst srcs = map N.of_nat (seq 1 (N.to_nat (next_sid s) - 1)) /\
+    Forall (piece_ok (next_sid s)) data.
+Proof.
+  generalize (eq_refl : SrcFacts.sess_reconsume_shape = true). generalize SrcFacts.sess_reconsume_shape. intros b1 ->.
+  exact current_output_self_contained.
+Qed.
+Print Assumptions C13_current_output_self_contained.
